@@ -217,6 +217,8 @@ type VC struct {
 	pkg         *ssa.Package
 	uf          map[string]bool
 	constDecls  []string
+	pendingThis     *Val // struct holding the function value of a field-function call (bound to "this" in its contract)
+	pendingThisType types.Type
 	constEpoch  *epoch
 	closures    map[string]*ssa.MakeClosure
 	closureBind map[string][]Val
@@ -642,6 +644,17 @@ func (vc *VC) refOf(p *Place) Term {
 	// right as long as neither side is written afterwards). Reported as an abstraction.
 	if vc.curState != nil && p.Typ != nil {
 		st := vc.curState
+		if arr, isArr := p.Typ.Underlying().(*types.Array); isArr && !isU256(p.Typ) {
+			// pointer to an array-typed field: array objects live in A:<elem>; snapshot the current contents there
+			vc.note("interior pointer stored as a value: snapshot semantics (" + typeKey(p.Typ) + ")")
+			ref := st.top
+			st.top = vc.define("top", mk(fmt.Sprintf("(+ %s 1)", ref.S), sortRef))
+			comp := vc.arrComp(arr.Elem())
+			val := vc.loadPlace(st, p)
+			h := vc.heapGet(st.heap, comp)
+			st.heap.known[comp] = vc.define(comp, tStore(h, ref, val))
+			return ref
+		}
 		if _, isArr := p.Typ.Underlying().(*types.Array); !isArr || isU256(p.Typ) {
 			vc.note("interior pointer stored as a value: snapshot semantics (" + typeKey(p.Typ) + ")")
 			ref := st.top
